@@ -127,6 +127,8 @@ impl InputList {
 
     pub fn from_reader(reader: &mut dyn BufRead) -> Result<Self> {
         let mut reader = Reader::from_reader(reader);
+        // Comments are passed through to the output, so must be well-formed
+        reader.config_mut().check_comments = true;
 
         let mut events = Vec::new();
         let mut buf = Vec::new();
